@@ -237,7 +237,7 @@ theorem fresh_step (fns : List Fn) (st : St) (it : Item) : Fresh st (step true f
     split
     · exact (rawExt_fail st _).fresh
     · split
-      · exact (rawExt_fail st _).fresh
+      · exact (RawExt.trans (rawExt_abandon st) (rawExt_fail _ _)).fresh
       · generalize hfold : List.foldl _ st _ = st1
         have hf : st1.vkeys = st.vkeys := by
           rw [← hfold]
@@ -246,6 +246,7 @@ theorem fresh_step (fns : List Fn) (st : St) (it : Item) : Fresh st (step true f
           obtain ⟨id, dd⟩ := x
           by_cases hx : dd = "" <;> simp [hx, renameValue]
         exact fresh_same hf
+  | abortSub => exact (rawExt_doAbortSub st).fresh
   | output hd n =>
     simp only [step, doOutput]
     split
